@@ -879,8 +879,10 @@ def jobs(tier):
   add('h_inverse_via', N=1, fps='8', frames=4, via='onsets')
   if deep:
     for fps in _FPS:
+      # two notes over six frames: 40+ min per rate with full witness
+      # validation: optional (N=2 over three frames is in the quick tier)
       add('h_paint', N=2, fps=fps, frames=6, mode='window', budget=2400,
-          required=fps in ('8', '50'))
+          required=False)
       add('h_paint', N=1, fps=fps, frames=8, mode='length_ms', onset_len_ms=30,
           budget=1800)
     add('h_paint', N=2, fps='62.5', frames=5, mode='window', delay_ms=-20.0,
